@@ -577,6 +577,48 @@ def check_progress(ctx, R="C08.progress"):
                     ctx.finding(R, s, f"{q} margin sign", f"{q}: the safety margin of one voxel pass has the wrong sign for an over-approximation")
 
 
+def check_room(ctx, R="C08.room"):
+    ctx.rule(
+        R,
+        "growth needs room: scipy.ndimage.binary_dilation returns an array of the input's shape, so VoxelRegion.dilation must pad the dense "
+        "grid (and move the grid origin) before dilating; otherwise a 'buffered' region is clipped to the original bounding grid and is not an "
+        "over-approximation",
+    )
+    model = ctx.model
+    fn = model.func(RG, "VoxelRegion.dilation")
+    calls = [c for c in ast.walk(fn) if isinstance(c, ast.Call) and isinstance(c.func, ast.Name) and c.func.id == "morphology_func"]
+    uses_dil = any(isinstance(n, ast.Attribute) and n.attr == "binary_dilation" for n in ast.walk(fn))
+    if not calls or not uses_dil:
+        raise AnalysisError("shape not recognised: VoxelRegion.dilation")
+    for c in calls:
+        a = c.args[0] if c.args else None
+        padded = False
+        if isinstance(a, ast.Name):
+            for n in ast.walk(fn):
+                if isinstance(n, ast.Assign) and any(isinstance(t_, ast.Name) and t_.id == a.id for t_ in n.targets) and isinstance(n.value, ast.Call) and dotted(n.value.func) in ("numpy.pad", "np.pad"):
+                    g = " ".join(unparse(t_) for t_, p_ in lib.guard_tests(n, fn) if p_)
+                    if "binary_dilation" in g or "iterations > 0" in g:
+                        padded = True
+        elif isinstance(a, ast.Call) and dotted(a.func) in ("numpy.pad", "np.pad"):
+            padded = True
+        if padded:
+            # the transform must move with the padding
+            tr = [n for n in ast.walk(fn) if isinstance(n, ast.Call) and dotted(n.func) == "trimesh.voxel.VoxelGrid"]
+            same = any(lib.kw(x, "transform") is not None and unparse(lib.kw(x, "transform")) == "self.voxelGrid.transform" for x in tr)
+            if same:
+                ctx.finding(R, c, "dilation keeps old transform", "VoxelRegion.dilation pads the grid but keeps the unpadded grid's transform: the dilated region is shifted")
+            else:
+                ctx.ok(R, c, "dilation pads the dense grid and shifts the grid origin before growing")
+        else:
+            ctx.finding(
+                R,
+                c,
+                "dilation without padding",
+                "VoxelRegion.dilation applies binary_dilation to the unpadded dense grid: the result cannot extend beyond the original grid, so "
+                "_bufferOverapproximate returns a region no larger than the original (visibility pruning then removes feasible positions)",
+            )
+
+
 # ----------------------------------------------------------------------
 # 5. None flows
 
@@ -636,7 +678,7 @@ def check_none(ctx, R="C08.none"):
                     ctx.ok(R, c, f"{q}: result of {c.func.id}() is tested for None before use")
             else:
                 ctx.ok(R, c, f"{q}: result of {c.func.id}() is not used arithmetically")
-    ctx.floor(R, n, 5, "calls of None-returning helpers")
+    ctx.floor(R, n, 3, "calls of None-returning helpers")
 
 
 def check(ctx):
@@ -644,4 +686,5 @@ def check(ctx):
     check_polarity(ctx)
     check_subset(ctx)
     check_progress(ctx)
+    check_room(ctx)
     check_none(ctx)
